@@ -35,6 +35,13 @@ def UNI(ch):
     return {"t": "uni", "ch": ch}
 
 
+BTN_KEY = {"Left": "mlft", "Right": "mrgt", "Mid": "mmid"}
+
+
+def BTN(btn):             # mlft / mrgt / mmid: a mouse button tap
+    return {"t": "btn", "btn": btn}
+
+
 def VK(name, out, y):
     return {"t": "vk", "name": name, "o": out, "y": y}
 
@@ -46,6 +53,8 @@ def kbd_item(i):
         return {"t": "raw", "text": "(unicode %s)" % i["ch"]}
     if i["t"] == "vk":
         return {"t": "raw", "text": "(on-press tap-vkey %s)" % i["name"]}
+    if i["t"] == "btn":
+        return {"t": "raw", "text": BTN_KEY[i["btn"]]}
     if i["t"] == "group":
         return {"t": "group", "mods": i["mods"], "items": [kbd_item(x) for x in i["items"]]}
     return i
@@ -60,6 +69,8 @@ def par_item(i):
         return {"t": "u", "ch": i["ch"]}
     if i["t"] == "vk":
         return {"t": "v", "o": cfgdesc.code(i["o"]), "y": i["y"]}
+    if i["t"] == "btn":
+        return {"t": "b", "btn": i["btn"]}
     if i["t"] == "modkey":
         return {"t": "m", "mods": [cfgdesc.code(m) for m in i["mods"]], "items": [par_item(i["k"])]}
     if i["t"] == "group":
@@ -78,6 +89,8 @@ def json_item_to_text(it, names):
         return str(it["n"])
     if t == "u":
         return "(unicode %s)" % it["ch"]
+    if t == "b":
+        return BTN_KEY[it["btn"]]
     inner = " ".join(json_item_to_text(x, names) for x in it["items"])
     if t == "l":
         return "(" + inner + ")"
@@ -92,9 +105,22 @@ def make(macros, plain=("c",), red=None, b1=True):
     pouts = {"c": "y", "d": "z", "e": "w"}
     layer, pm, extra = {}, [], []
     vks = {}
+    vmacros = []
     for (k, variant, body) in macros:
-        layer[k] = {"t": "macro", "variant": variant, "items": [kbd_item(i) for i in body]}
+        act = {"t": "macro", "variant": variant, "items": [kbd_item(i) for i in body]}
         rep, rc, pc = VARIANTS[variant]
+        if isinstance(k, tuple):    # ("vk", name, {"tg": key, "pk": key, "rk": key}): the macro sits on a virtual key
+            _, vname, ops = k
+            vmacros.append("%s %s" % (vname, cfgdesc.render_action(act)))
+            opn = {"tg": "toggle-vkey", "pk": "press-vkey", "rk": "release-vkey"}
+            for o, pk in ops.items():
+                layer[pk] = {"t": "raw", "text": "(on-press %s %s)" % (opn[o], vname)}
+            pm.append({"c": 0, "rep": rep, "rc": rc, "pc": pc, "body": [par_item(i) for i in body],
+                       "tg": cfgdesc.code(ops["tg"]) if "tg" in ops else 0,
+                       "pk": cfgdesc.code(ops["pk"]) if "pk" in ops else 0,
+                       "rk": cfgdesc.code(ops["rk"]) if "rk" in ops else 0})
+            continue
+        layer[k] = act
         pm.append({"c": cfgdesc.code(k), "rep": rep, "rc": rc, "pc": pc, "body": [par_item(i) for i in body]})
 
         def walk(its):
@@ -104,11 +130,12 @@ def make(macros, plain=("c",), red=None, b1=True):
                 elif isinstance(i, dict) and i["t"] == "group":
                     walk(i["items"])
         walk(body)
-    if vks:
-        extra.append("(defvirtualkeys " + " ".join("%s %s" % vks[y] for y in sorted(vks)) + ")")
+    if vks or vmacros:
+        extra.append("(defvirtualkeys " + " ".join(["%s %s" % vks[y] for y in sorted(vks)] + vmacros) + ")")
     for k in plain:
         layer[k] = {"t": "key", "k": pouts[k]}
-    keys = [m[0] for m in macros] + list(plain)
+    keys = [m[0] for m in macros if not isinstance(m[0], tuple)] + \
+           [pk for m in macros if isinstance(m[0], tuple) for pk in m[0][2].values()] + list(plain)
     desc = {"keys": keys, "layers": [layer], "extra": extra}
     if red is not None:
         desc["defcfg"] = {"rapid-event-delay": red}
@@ -122,7 +149,7 @@ S, C = ["lsft"], ["lctl"]
 def family(tier, rng):
     """(name, macros, plain keys, seqs bound, qmax)"""
     F = [
-        ("plain_grp", [("a", "macro", [G(S, "a", 3, "b"), "a"])], ("c",), 2, 2),
+        ("plain_grp", [("a", "macro", [G(S, "a", 3, "b")])], ("c",), 2, 2),
         ("relc_grp", [("a", "macro-release-cancel", [G(S, "a", "b"), 1, "a"])], ("c",), 2, 2),
         ("pressc", [("a", "macro-cancel-on-press", ["a", 3, MK(S, "b")])], ("c",), 2, 2),
         ("both_nest", [("a", "macro-release-cancel-and-cancel-on-press", [G([], "a", G([], "b", MK(S, "a")))])], ("c",), 2, 2),
@@ -131,6 +158,12 @@ def family(tier, rng):
         ("rep_pressc", [("a", "macro-repeat-cancel-on-press", ["a", MK(S, "b")])], ("c",), 2, 2),
         ("two_disj", [("a", "macro", [G(S, "a", 1)]), ("b", "macro-release-cancel", [MK(C, "x"), "x"])], (), 2, 2),
         ("uni_relc", [("a", "macro", ["a", UNI("q"), "b"]), ("b", "macro-release-cancel", ["x"])], (), 2, 2),
+        # press/release custom items (mouse buttons): last, in the middle + release-cancel right after, two in a row
+        ("btn_last", [("a", "macro", ["x", BTN("Left")])], ("c",), 2, 2),
+        ("btn_relc", [("a", "macro-release-cancel", ["x", BTN("Left"), 2, "b"])], ("c",), 2, 2),
+        ("btn_two", [("a", "macro", ["x", BTN("Left"), BTN("Right")])], ("c",), 2, 2),
+        # a repeating macro on a virtual key operated by toggle-vkey / release-vkey
+        ("rep_vkey", [(("vk", "v1", {"tg": "a", "rk": "b"}), "macro-repeat", ["x", MK(S, "b")])], (), 2, 2),
     ]
     if tier != "quick":
         F += [
@@ -142,6 +175,9 @@ def family(tier, rng):
             ("two_same", [("a", "macro", [G(S, "a", "b")]), ("b", "macro-cancel-on-press", [MK(S, "b"), 1, "a"])], (), 2, 2),
             ("two_rep", [("a", "macro-repeat", ["a", "b"]), ("b", "macro-repeat-release-cancel", [MK(C, "x")])], (), 2, 2),
             ("plain_q3", [("a", "macro", [G(S, "a", 2, "b"), "a"])], ("c",), 3, 3),
+            ("btn_pc", [("a", "macro-cancel-on-press", [BTN("Left"), "x", BTN("Left"), BTN("Right")])], ("c",), 1, 2),
+            ("plain_grp2", [("a", "macro", [G(S, "a", 3, "b"), "a"])], ("c",), 2, 2),
+            ("rep_vkey3", [(("vk", "v1", {"tg": "a", "pk": "b", "rk": "c"}), "macro-repeat", ["x", 1, "b"])], (), 2, 2),
             ("ring", [("a", "macro", [G(S, "a", 3, "b"), 3])], (), 4, 2),
         ]
         for i in range(6):
@@ -176,7 +212,7 @@ GEN_TLA = r'''---- MODULE C08Gen ----
 EXTENDS P_C08, Json
 KA == %(a)d
 KB == %(b)d
-A0 == {[t |-> "k", k |-> KA], [t |-> "k", k |-> KB], [t |-> "d", n |-> 1], [t |-> "d", n |-> 3], [t |-> "u", ch |-> "q"]}
+A0 == {[t |-> "k", k |-> KA], [t |-> "k", k |-> KB], [t |-> "d", n |-> 1], [t |-> "b", btn |-> "Left"], [t |-> "u", ch |-> "q"]}
 A0r == {[t |-> "k", k |-> KA], [t |-> "d", n |-> 2]}
 SeqsUpTo(X, n) == UNION {[1..k -> X] : k \in 1..n}
 Mods == {<<%(s)d>>, <<%(c)d, %(s)d>>}
@@ -383,7 +419,8 @@ def run(tier, seed):
                    for _ in range(n)]
         other = keys[-1] if len(keys) > 1 else keys[0]
         for (k, variant, body) in macros:
-            scripts += cancel_sweep(kbd, params, cfgdesc.code(k), other, variant, 14)
+            if not isinstance(k, tuple):
+                scripts += cancel_sweep(kbd, params, cfgdesc.code(k), other, variant, 14)
         random_jobs.append({"cfg": kbd, "params": params, "tag": "r:" + name, "scripts": scripts})
 
     # (3) more macros than the ring holds: 4 (fits), 5 and 6 concurrent macros with disjoint keys
